@@ -510,7 +510,10 @@ def run(prog: Program, rep, thorough: bool) -> None:
                  and isinstance(n.ast, (ast.Assign, ast.AnnAssign)) and n.ast.value is not None
                  and norm(n.ast.value) == f'{recv}.current_flag']
         others = [n for n in F.cfg.nodes if n.ast is not None and fl.id in defs_of(n) and n not in reads]
-        if not reads:
+        if not reads and not others and fl.id not in F.func.params:
+            rep.undecided('C15.R2', tc.where(site), f'row flag `{fl.id}`',
+                          'the name is bound in a comprehension or a nested function: where its value comes from is not traced')
+        elif not reads:
             rep.fail('C15.R2', tc.path, site.lineno, F.func.qualname, 'row-flag',
                      f'recorded rows carry `{norm(fl)}` instead of the filter\'s current flags')
         elif all(rn.id in dom[n.id] and F.in_loop(n) for n in reads) \
